@@ -33,7 +33,7 @@ LEVEL_NOTE = ("trusted: Coq kernel + vm_compute; pandas groupby/mean, numpy matm
               "the tie to the code is differential on generated inputs")
 TECHNIQUE = "Coq proof over an executable exact-rational model; in-Coq vm_compute correspondence with the implementation; fixed-seed statistical monitor"
 RULE = ("case = trial (phased genotypes n in 1..12 incl. 10/11 for label widths, labels absent/unsorted/duplicated, groups absent/present, "
-        "additive model with 1-2 fixed effects, nenv 1..3, nrep scalar or per-environment, each variance None/scalar/array/zero, dyadic "
+        "additive model with 1-2 fixed effects, nenv 1..3 (in 12% reassigned after construction), nrep scalar or per-environment, each variance None/scalar/array/zero, dyadic "
         "scripted normal draws, optional set_h2/set_H2 incl. h2=1 and an invalid target, then estimate with/without group column, trait "
         "subset/reorder, dropped rows, row permutation, genotype matrix absent/same/permuted+extra+duplicate taxa/without labels) or table "
         "(arbitrary records: taxon in several groups, null groups, 1..4 records per taxon) or monitor (fixed-seed real generator); "
@@ -43,7 +43,8 @@ TRUSTED = ["pandas DataFrame.groupby(sort=True, dropna=True).agg(mean) (modelled
            "DenseBreedingValueMatrix.from_numpy/unscale round trip (property C15) within 2^-30 relative",
            "DenseAdditiveLinearGenomicModel.gegv/gebv/var_A/var_G are modelled as Z@u_a + (beta[0] + mean-weighted other fixed effects) and population variance"]
 ASSUMPTIONS = ["trait values finite; taxa labels printable ASCII strings; variances are squares of dyadic standard deviations in scripted cases",
-               "alignment theorem needs: no group column, or no taxon with records in two groups and no null groups (otherwise finding C14-join-ignores-group / C14-null-group-drops-records)"]
+               "alignment theorem needs: no group column, or no taxon with records in two groups and no null groups (otherwise finding C14-join-ignores-group / C14-null-group-drops-records)",
+               "all nenv environments are simulated only if nenv was not raised after nrep was stored (otherwise finding C14-stale-nrep-after-nenv)"]
 
 LABELS = ["b", "a", "c", "Z", "aa", "a1", "B", "ab", "T10", "T9", "x_y", "k"]
 TRAITS = ["y", "x", "w2", "Yld", "w10"]
@@ -114,8 +115,11 @@ def _trial(rng, n=None, zero=None, small=False, auto=False):
     case = {"kind": "trial", "geno": geno, "taxa": taxa, "taxa_grp": taxa_grp, "beta": beta, "u": u, "trait": trait,
             "nenv": nenv, "nrep": nrep, "sd_env": _sd(rng, t, zero), "sd_rep": _sd(rng, t, zero), "sd_err": _sd(rng, t, zero)}
     reps = [nrep] * nenv if isinstance(nrep, int) else nrep
+    if rng.random() < 0.12:                                   # nenv reassigned after construction (nrep attribute is not rebuilt)
+        case["nenv_set"] = rng.randint(1, nenv + 2) if isinstance(nrep, int) else rng.randint(1, nenv)
+        reps = reps[:case["nenv_set"]]
     draws = []
-    for e in range(nenv):
+    for e in range(len(reps)):
         draws.append([_grid(rng, 3, 4) for _ in range(t)])
         for _ in range(reps[e]):
             draws.append([_grid(rng, 3, 4) for _ in range(t)])
@@ -129,6 +133,7 @@ def _trial(rng, n=None, zero=None, small=False, auto=False):
         v = rng.choice(vals) if rng.random() < 0.5 else [rng.choice(vals) for _ in range(t)]
         case["h2"] = {"which": rng.choice(["h2", "H2"]), "val": v}
     case["est"] = _est(rng, n * sum(reps), t, taxa, taxa_grp)
+    if case.get("nenv_set", 0) > nenv: case["est"]["grp"] = False
     return case
 
 def _table(rng, weird=True):
@@ -156,15 +161,16 @@ def _table(rng, weird=True):
     if weird and rng.random() < 0.5: case["est"]["grp"] = True
     return case
 
+MONITOR_DESIGN = {"env": (3000, 1, 3), "rep": (30, 100, 3), "err": (5, 5, 200), "all": (400, 8, 10)}    # nenv, nrep, ntaxa
 def _monitor(rng, which):
     t = 2
-    n, p = 40, 6
+    nenv, nrep, n = MONITOR_DESIGN[which]; p = 6
     geno = [[[rng.randint(0, 1) for _ in range(p)] for _ in range(n)] for _ in range(2)]
     u = [[_grid(rng) for _ in range(t)] for _ in range(p)]
     var = {"env": [0.0, 0.0], "rep": [0.0, 0.0], "err": [0.0, 0.0]}
     if which == "all": var = {"env": [4.0, 0.25], "rep": [1.0, 2.25], "err": [0.5, 9.0]}
     else: var[which] = [2.25, 0.5]
-    return {"kind": "monitor", "geno": geno, "u": u, "beta": [[1.0, -2.0]], "nenv": 60, "nrep": 6, "var": var,
+    return {"kind": "monitor", "geno": geno, "u": u, "beta": [[1.0, -2.0]], "nenv": nenv, "nrep": nrep, "var": var,
             "seed": rng.randint(0, 2 ** 31), "which": which}
 
 def gen_cases(rng, tier):
@@ -177,9 +183,9 @@ def gen_cases(rng, tier):
         c = _trial(rng, n=100, zero=True, auto=True); c["nenv"] = 1; c["nrep"] = 1
         t = len(c["u"][0]); c["draws"] = [[0.0] * t, [0.0] * t, [0.0] * (100 * t)]
         c["est"] = _est(rng, 100, t, None, c["taxa_grp"], force_gt=0.0); c["est"]["drop"] = []; cases.append(c)
-    for _ in range(170 if quick else 2600):
+    for _ in range(170 if quick else 6000):
         cases.append(_trial(rng))
-    for _ in range(130 if quick else 2200):
+    for _ in range(130 if quick else 5000):
         cases.append(_table(rng))
     for which in (("env", "rep", "err", "all") if quick else ("env", "rep", "err", "all") * 3):
         cases.append(_monitor(rng, which))
@@ -313,6 +319,7 @@ def run_impl(case):
     rng = Scripted(normals=copy.deepcopy(case["draws"]))
     pt = G_E_Phenotyping(gm, nenv=case["nenv"], nrep=nrep, var_env=_var_arg(case["sd_env"], t), var_rep=_var_arg(case["sd_rep"], t),
                          var_err=_var_arg(case["sd_err"], t), rng=rng)
+    if case.get("nenv_set") is not None: pt.nenv = case["nenv_set"]
     out = {}
     out["var_set"] = [[float(x).hex() for x in a] for a in (pt.var_env, pt.var_rep, pt.var_err)]
     out["nrep_attr"] = [int(x) for x in pt.nrep]
@@ -446,17 +453,21 @@ def _pred_monitor(case, out, bad):
     blk = d.mean(2)                                   # (nenv, nrep, t) = env + rep + mean err
     s_err = ((d - blk[:, :, None, :]) ** 2).sum((0, 1, 2)) / (nenv * nrep * (n - 1))
     envm = blk.mean(1)                                # env + mean rep + mean err
-    s_rep_tot = ((blk - envm[:, None, :]) ** 2).sum((0, 1)) / (nenv * (nrep - 1))     # var_rep + var_err/n
+    s_rep_tot = ((blk - envm[:, None, :]) ** 2).sum((0, 1)) / max(1, nenv * (nrep - 1))     # var_rep + var_err/n
     s_env_tot = envm.var(0, ddof=1)                   # var_env + (var_rep + var_err/n)/nrep
+    # chi-square relative standard deviations sqrt(2/df); tolerance = 6 sigma (fixed seeds, so deterministic anyway)
+    df_err = nenv * nrep * (n - 1); df_rep = nenv * (nrep - 1); df_env = nenv - 1
     for j in range(d.shape[3]):
         ve, vr, vx = var["env"][j], var["rep"][j], var["err"][j]
-        def chk(name, got, want, rel):
+        def chk(name, got, want, df):
+            if df <= 0: return
             if want == 0.0:
                 if abs(got) > 1e-18: bad.append("monitor: %s variance component should vanish, realised %g (trait %d)" % (name, got, j))
-            elif abs(got - want) > rel * want: bad.append("monitor: realised %s variance %g vs requested %g (trait %d)" % (name, got, want, j))
-        chk("error", s_err[j], vx, 0.08)
-        chk("replicate", s_rep_tot[j], vr + vx / n, 0.25)
-        chk("environment", s_env_tot[j], ve + (vr + vx / n) / nrep, 0.5)
+            elif abs(got - want) > 6.0 * math.sqrt(2.0 / df) * want:
+                bad.append("monitor: realised %s variance %g vs requested %g (trait %d, df %d)" % (name, got, want, j, df))
+        chk("error", s_err[j], vx, df_err)
+        if nrep > 1: chk("replicate", s_rep_tot[j], vr + vx / n, df_rep)
+        chk("environment", s_env_tot[j], ve + (vr + vx / n) / nrep, df_env)
 
 def pred(case, out):
     """the property, stated directly on the implementation's outputs (independent of the Coq model)"""
@@ -469,14 +480,15 @@ def pred(case, out):
         _pred_est(case, out, bad); return _dedupe(bad)
     geno = case["geno"]; n = len(geno[0]); t = len(case["u"][0])
     gv = _truth(case)
-    reps = [case["nrep"]] * case["nenv"] if isinstance(case["nrep"], int) else list(case["nrep"])
+    nenv = case["nenv_set"] if case.get("nenv_set") is not None else case["nenv"]     # the number of environments in force at the call
+    reps = [case["nrep"]] * nenv if isinstance(case["nrep"], int) else list(case["nrep"])[:nenv]
     taxa = case["taxa"] if case["taxa"] is not None else _autolabels("Taxon", n)
     grp = case["taxa_grp"]
     tnames = case["trait"] if case["trait"] is not None else _autolabels("Trait", t)
     d = out["df"]
     # --- one record per taxon, environment and replicate, carrying the taxon's labels
     if d["cols"] != ["taxa", "taxa_grp", "env", "rep"] + tnames: bad.append("phenotype columns %r" % d["cols"])
-    cells = [(e + 1, r + 1) for e in range(case["nenv"]) for r in range(reps[e])]
+    cells = [(e + 1, r + 1) for e in range(nenv) for r in range(reps[e])]
     if d["nrow"] != n * len(cells): bad.append("phenotype(): %d records, expected ntaxa*sum(nrep) = %d" % (d["nrow"], n * len(cells)))
     else:
         from collections import Counter
@@ -487,7 +499,7 @@ def pred(case, out):
                 if cnt[(e, r, i)] != 1: bad.append("cell env=%d rep=%d taxon %d has %d records" % (e, r, i, cnt[(e, r, i)])); break
         sde, sdr, sdx = _sdv(case["sd_env"], t), _sdv(case["sd_rep"], t), _sdv(case["sd_err"], t)
         k = 0; row = 0
-        for e in range(case["nenv"]):
+        for e in range(nenv):
             ze = case["draws"][k]; k += 1
             for r in range(reps[e]):
                 zr = case["draws"][k]; zx = case["draws"][k + 1]; k += 2
@@ -567,6 +579,13 @@ def _defect_semantics(case, out):
 
 def classify(case, out, clauses):
     if not clauses or case["kind"] == "monitor" or "exc" in out: return None
+    if any(c.startswith("phenotype(): ") for c in clauses):
+        # nenv raised after construction with a scalar nrep: the stored nrep array is stale, only the first environments are simulated
+        if len(clauses) != 1 or case["kind"] != "trial" or not isinstance(case["nrep"], int): return None
+        if case.get("nenv_set", 0) <= case["nenv"]: return None
+        n = len(case["geno"][0])
+        if out["df"]["nrow"] != n * case["nrep"] * case["nenv"] or sorted(set(out["df"]["env"])) != list(range(1, case["nenv"] + 1)): return None
+        return "C14-stale-nrep-after-nenv"
     if not all(c.startswith("bvjoin ") or c.startswith("bvnull ") for c in clauses): return None
     est = case["est"]
     if not est["grp"] or (est["gt"] is not None and est["gt"]["taxa"] is None) or est.get("missing_col"): return None
@@ -612,7 +631,7 @@ def describe(case, out):
         d["ntaxa"] = "1" if n == 1 else ("2-6" if n <= 6 else "7+")
         d["labels"] = "auto" if case["taxa"] is None else ("dup" if len(set(case["taxa"])) < n else "unique")
         d["groups"] = case["taxa_grp"] is not None
-        d["nenv"] = case["nenv"]; d["nrep_form"] = "scalar" if isinstance(case["nrep"], int) else "array"
+        d["nenv"] = case["nenv"]; d["nenv_reassigned"] = case.get("nenv_set") is not None; d["nrep_form"] = "scalar" if isinstance(case["nrep"], int) else "array"
         z = lambda s: s is None or (s == 0.0 if not isinstance(s, list) else all(x == 0.0 for x in s))
         d["zero_noise"] = z(case["sd_env"]) and z(case["sd_rep"]) and z(case["sd_err"])
         d["h2"] = "none" if case.get("h2") is None else case["h2"]["which"]
@@ -665,11 +684,12 @@ def emit_case(case, out):
     g = d.get("taxa_grp", [None] * d["nrow"])
     irows = [E.tup(E.s(d["taxa"][i]), E.opt(g[i], E.z), E.z(d["env"][i]), E.z(d["rep"][i]), E.lst(d["vals"][i], _qh)) for i in range(d["nrow"])]
     sds = ["(var_vec %d %s)" % (t, _vararg(case[k], False)) for k in ("sd_env", "sd_rep", "sd_err")]
-    parts.append("pheno_agree [%s]\n     (phenotype %d %d taxa grp gvm %d %s %s %s %s %s)" % ("; ".join(irows), n, t, case["nenv"], nrep, sds[0], sds[1], sds[2],
-                 E.lst2(case["draws"], _q)))
+    nenv_call = case["nenv_set"] if case.get("nenv_set") is not None else case["nenv"]
+    parts.append("pheno_agree [%s]\n     (phenotype %d %d taxa grp gvm %d (nrep_vec %d %s) %s %s %s %s)" % ("; ".join(irows), n, t, nenv_call, case["nenv"], nrep,
+                 sds[0], sds[1], sds[2], E.lst2(case["draws"], _q)))
     parts.append("Z.eqb %s 0%%Z" % E.z(out["left"]))
     parts.append("sl_eqb %s (pheno_cols tnames)" % E.lst(d["cols"], E.s))
-    parts.append("natl_eqb %s (firstn %d (nrep_vec %d %s))" % (E.lst(out["nrep_attr"], E.nat), case["nenv"], case["nenv"], nrep))
+    parts.append("natl_eqb %s (nrep_vec %d %s)" % (E.lst(out["nrep_attr"], E.nat), case["nenv"], nrep))
     for i, k in enumerate(("sd_env", "sd_rep", "sd_err")):
         parts.append("ql_eqb %s (var_vec %d %s) && ql_eqb (map (fun s => s * s)%%Q %s) (var_vec %d %s)"
                      % (E.lst(out["var_set"][i], _qh), t, _vararg(case[k], True), sds[i], t, _vararg(case[k], True)))
